@@ -27,7 +27,9 @@
 //     constants such as dns.MaxMsgSize are resolved from the dependency's
 //     export data), parameters, locals, field selectors, arithmetic,
 //     comparisons, !, && and || with Go's short-circuit order, integer
-//     conversions (identity), the built-ins min and max;
+//     conversions (identity), the built-ins min and max; the integer conversion
+//     of `d.Seconds()` for a time.Duration d is `Int.tdiv d 1e9` (whole
+//     seconds; float64 rounding of huge durations is not modelled);
 //   - a call to another function of the same translation list is a call of its
 //     Lean definition; cmp.Or over errors is "first non-nil, all arguments
 //     evaluated"; validateProp(name, f) is `f()` (the name prefix is kept in
@@ -914,6 +916,20 @@ func (c *fctx) call(x *ast.CallExpr) ex {
 		}
 		if c.t.leanType(from) != "" && c.t.leanType(from) == c.t.leanType(to) {
 			return c.expr(x.Args[0])
+		}
+		if in, ok := x.Args[0].(*ast.CallExpr); ok && isInt(to) && len(in.Args) == 0 {
+			// intN(d.Seconds()) for a time.Duration d: whole seconds, truncated
+			// (the float64 rounding of very large durations is not modelled)
+			if key, recv := c.calleeKey(in); key == "time.Duration.Seconds" {
+				a := c.expr(recv)
+				return c.bindN([]ex{a}, func(s []string) string {
+					r := "(Int.tdiv " + s[0] + " (1000000000 : Int))"
+					if bits := unsignedBits(to); bits > 0 {
+						return fmt.Sprintf("(goWrapU %s %s)", pow2(bits), r)
+					}
+					return r
+				})
+			}
 		}
 		fail("conversion %s from %s", c.show(x), from)
 	}
